@@ -78,8 +78,9 @@ func (s *sink) Write(p []byte) (int, error) {
 }
 
 // source delivers data with a fragmentation pattern and an optional fault.
-//   frag 0: as much as asked; 1: one byte per call; 2: seeded random sizes with zero-length reads;
-//   3: as 0 but the last bytes come together with io.EOF; 4: at most 7 bytes per call
+//
+//	frag 0: as much as asked; 1: one byte per call; 2: seeded random sizes with zero-length reads;
+//	3: as 0 but the last bytes come together with io.EOF; 4: at most 7 bytes per call
 type source struct {
 	data     []byte
 	pos      int
@@ -131,8 +132,9 @@ func (s *source) Read(p []byte) (int, error) {
 // ---------------------------------------------------------------- data generators (also implemented in the OCaml driver)
 
 // genData: deterministic content from (kind, seed, n).
-//   kind 0: pseudo-random bytes (incompressible); 1: text-like with period 37+seed%11; 2: all equal;
-//   3: mixed: compressible and incompressible stretches of 1000 bytes
+//
+//	kind 0: pseudo-random bytes (incompressible); 1: text-like with period 37+seed%11; 2: all equal;
+//	3: mixed: compressible and incompressible stretches of 1000 bytes
 func genData(kind, seed, n int) []byte {
 	b := make([]byte, n)
 	x := uint32(seed)*2654435761 + 12345
@@ -338,7 +340,11 @@ func runWS(c *wsCase) string {
 				res = append(res, "a:"+errClass(err))
 			case strings.HasPrefix(op, "W:"):
 				d := parseData(op[2:])
-				n, err := zw.Write(d)
+				buf := append([]byte(nil), d...)
+				n, err := zw.Write(buf)
+				for i := range buf { // the caller may reuse its buffer as soon as Write has returned
+					buf[i] = 0xEE
+				}
 				res = append(res, fmt.Sprintf("%d:%s", n, errClass(err)))
 				if n > 0 && n <= len(d) {
 					cur = append(cur, d[:n]...)
@@ -468,6 +474,8 @@ func (c *rsCase) fields() string {
 func runRS(c *rsCase) string {
 	return withWatchdog(8*time.Second, func() string {
 		g0 := runtime.NumGoroutine()
+		var ms0 runtime.MemStats
+		runtime.ReadMemStats(&ms0)
 		src := &source{data: c.in, frag: c.frag, failAt: c.fault, r: newRng(uint64(len(c.in)), "rs")}
 		zr := lz4.NewReader(src)
 		var res []string
@@ -576,7 +584,21 @@ func runRS(c *rsCase) string {
 				leak = fmt.Sprintf("fail:%d-goroutines-remain", n-g0)
 			}
 		}
-		return obs + " oracle_noleak=" + leak
+		// allocation must not follow attacker-controlled fields: a generous fixed budget (a few
+		// 8 MiB buffers for legacy frames, read buffers of the session) plus the delivered bytes
+		var ms1 runtime.MemStats
+		runtime.ReadMemStats(&ms1)
+		budget := uint64(96<<20) + 24*uint64(len(delivered)+len(c.in))
+		for _, op := range c.ops {
+			if strings.HasPrefix(op, "RA:") {
+				budget += 8 << 20
+			}
+		}
+		alloc := "ok"
+		if grown := ms1.TotalAlloc - ms0.TotalAlloc; grown > budget {
+			alloc = fmt.Sprintf("fail:%d-MiB-allocated-for-%d-input-bytes", grown>>20, len(c.in))
+		}
+		return obs + " oracle_noleak=" + leak + " oracle_alloc=" + alloc
 	})
 }
 
